@@ -11,7 +11,7 @@
       repaired code: visited marking in minCircle, memoised checkPush, pushNode
       skipping pushed nodes, names printed verbatim). *)
 From Coq Require Import List ZArith String Bool.
-From Verif Require Import Dag.Model Gen.DagsSrc.
+From Verif Require Import Dag.Model Dag.Ops Gen.DagsSrc.
 Import ListNotations.
 Local Open Scope string_scope.
 
@@ -62,7 +62,6 @@ Definition deployed_frozen : list (string * string) :=
     ("pushTight", "func(m *Map) { nodes := m.SortedNodes() n := len(nodes) for i := range nodes { node := nodes[n-1-i] for pushWorthy(m, node) { pushed := make(map[string]*MapNode) pushNode(m, node, pushed) for _, p := range pushed { p.layer++ if p.layer >= m.Nlayer { panic(""pushing to hard, increasing layers"") } } } } }");
     ("critOutMaxLayer", "func(n *MapNode) int { ret := n.layer for _, out := range n.CritOuts { if out.layer > ret { ret = out.layer } } return ret }");
     ("avgCritInY", "func(n *MapNode) int { nIn := len(n.CritIns) if nIn == 0 { return 0 } sum := 0 for _, in := range n.CritIns { sum += in.y } return (sum + nIn/2) / nIn }");
-    ("findY", "func(n *MapNode, tak map[int]bool) int { yavg := avgCritInY(n) offset := 0 for { if !tak[yavg+offset] { return yavg + offset } if !tak[yavg-offset] { return yavg - offset } offset++ } }");
     ("LayoutMap", "func(m *Map) *MapView { pushTight(m) v := &MapView{ Nodes: make(map[string]*MapNodeView), } layers := m.SortedLayers() slotTaken := make([]map[int]bool, m.Nlayer) for i := range slotTaken { slotTaken[i] = make(map[int]bool) } ymin := 0 for _, layer := range layers { for _, node := range layer { x := node.layer node.x = x tak := slotTaken[x] node.y = findY(node, tak) snapNearBy(node, tak) y := node.y xmax := critOutMaxLayer(node) for i := x + 1; i < xmax; i++ { slotTaken[i][y] = true } if y < ymin { ymin = y } } } ymax := 0 for _, node := range m.Nodes { node.y -= ymin if node.y > ymax { ymax = node.y } v.Nodes[node.Name] = &MapNodeView{ Name: node.Name, X: node.x, Y: node.y, CritIns: makeNodeList(node.CritIns), CritOuts: makeNodeList(node.CritOuts), } } v.Width = m.Nlayer v.Height = ymax + 1 return v }");
     ("Graph.Reverse", "func() *Graph { ret := make(map[string][]string) for n := range g.Nodes { ret[n] = nil } for n, lst := range g.Nodes { for _, m := range lst { ret[m] = append(ret[m], n) } } for _, list := range ret { sort.Strings(list) } return &Graph{Nodes: ret} }") ].
 
@@ -126,7 +125,11 @@ Proof. vm_compute. reflexivity. Qed.
 Lemma frozen_avgCritInY : frozen_matches "avgCritInY" = true.
 Proof. vm_compute. reflexivity. Qed.
 
-Lemma frozen_findY : frozen_matches "findY" = true.
+(** findY is no longer compared as text: its slot probe is extracted as a
+    skeleton, and the obligation is what the layout theorem needs - the probe
+    starts at the preferred row, has no exit other than a return guarded by
+    a test of the very row it returns, and steps outward by one. *)
+Lemma gen_findy_ok : fy_ok gen_findy = true.
 Proof. vm_compute. reflexivity. Qed.
 
 Lemma frozen_LayoutMap : frozen_matches "LayoutMap" = true.
